@@ -18,6 +18,8 @@ type Violation struct {
 	Choices  []int           `json:"choices,omitempty"`
 	Detail   string          `json:"detail"`
 	GoTest   string          `json:"go_test,omitempty"` // plain unit test that replays the case without the framework
+	NoReplay bool            `json:"no_replay,omitempty"` // observed on a whole run (end-of-run state); not re-executed case by case
+	Shard    int             `json:"shard,omitempty"`     // filled by the driver: the worker that reported it
 }
 
 // Key identifies a class of violations.
@@ -87,6 +89,17 @@ type Replay struct {
 	Detail   string          `json:"detail"`
 	GoTest   string          `json:"go_test,omitempty"`
 	Note     string          `json:"note,omitempty"`
+	// History-dependent violations (the case alone does not fail in a fresh process, the worker's whole
+	// deterministic run does): replayed by re-running that worker.
+	HistoryReplay *HistoryReplay `json:"history_replay,omitempty"`
+}
+
+// HistoryReplay identifies a deterministic worker run.
+type HistoryReplay struct {
+	Tier    string `json:"tier"`
+	Shard   int    `json:"shard"`
+	NShards int    `json:"nshards"`
+	Class   string `json:"class"`
 }
 
 // Hash64 of a string.
